@@ -553,9 +553,22 @@ def lower_bound(p, lb=None):
             return None
         v = Fraction(1)
         for a, e in m:
-            if not _is_free(a):
-                return None
-            v *= Fraction(lb.get(a, 1)) ** e
+            if _is_free(a):
+                v *= Fraction(lb.get(a, 1)) ** e
+                continue
+            # min / max / join of sizes: bounded below by the bounds of the
+            # alternatives (sizes are >= 1)
+            if isinstance(a, tuple) and a and a[0] in ('min', 'max', 'join'):
+                subs = [lower_bound(x, lb) for x in a[1:]
+                        if isinstance(x, Poly)]
+                if len(subs) != len(a) - 1 or any(x is None for x in subs):
+                    return None
+                b_ = max(subs) if a[0] == 'max' else min(subs)
+                if b_ < 0:
+                    return None
+                v *= Fraction(b_) ** e
+                continue
+            return None
         total += c * v
     return total
 
